@@ -284,8 +284,8 @@ def convStepD (st : DStep) : DStep :=
 def admissibleConvD (st : DStep) : Bool :=
   match st.op with
   | .setdefault _ d => missingFree d
-  | .update pairs kw => distinctKeysB (pairs ++ kw)
-  | .rebind pairs kw => distinctKeysB (pairs ++ kw)
+  | .update pairs kw => mergeOk (pairs ++ kw)
+  | .rebind pairs kw => mergeOk (pairs ++ kw)
   | _ => true
 
 theorem hasKey_map_convKV (kvs : List (Key × Val)) (k : Key) : hasKey (kvs.map convKV) k = hasKey kvs k := by
@@ -338,6 +338,11 @@ theorem setAll_conv (kvs pairs : List (Key × Val)) :
     obtain ⟨k, v⟩ := p
     simp only [List.map_cons, convKV, PgDict.setAll, dsetItemRaw_conv, ih]
 
+theorem mergeOk_convKV (ps : List (Key × Val)) : mergeOk (ps.map convKV) = mergeOk ps := by
+  unfold mergeOk
+  rw [distinctKeysB_convKV]
+  simp [List.all_map, Function.comp_def, convKV, isMissing_conv]
+
 theorem admissibleD_conv {st : DStep} (h : admissibleConvD st = true) : admissibleD (convStepD st) = true := by
   obtain ⟨op, nt⟩ := st
   have hmf : ∀ ps : List (Key × Val), (ps.map convKV).all (fun p => missingFree p.2) = true := by
@@ -348,10 +353,10 @@ theorem admissibleD_conv {st : DStep} (h : admissibleConvD st = true) : admissib
   | setdefault k d => simpa [admissibleD, convStepD, admissibleConvD] using h
   | update pairs kw =>
     simp only [admissibleConvD] at h
-    simp only [admissibleD, convStepD, ← List.map_append, distinctKeysB_convKV, h, hmf, Bool.and_self]
+    simp only [admissibleD, convStepD, ← List.map_append, mergeOk_convKV, h, hmf, Bool.and_self]
   | rebind pairs kw =>
     simp only [admissibleConvD] at h
-    simp only [admissibleD, convStepD, ← List.map_append, distinctKeysB_convKV, h, hmf, Bool.and_self]
+    simp only [admissibleD, convStepD, ← List.map_append, mergeOk_convKV, h, hmf, Bool.and_self]
   | get k => rfl
   | getD k d => rfl
   | contains k => rfl
